@@ -35,8 +35,8 @@ Print Assumptions C13_close_releases.
 (* non-vacuity: a result set with a fetch failure after one row *)
 Example C13_applies :
   let r := {| r_pending := [{| row_id := 1; row_ok := true |}; {| row_id := 2; row_ok := true |}];
-              r_fail := Some (1, 7); r_close_err := None; r_closed := false; r_lasterr := None;
-              r_hit_eof := false; r_current := None; r_driver_closes := 0 |} in
+              r_fail := Some (1, 7); r_close_err := None; r_more := false; r_closed := false; r_lasterr := None;
+              r_hiteof := false; r_ctxdone := false; r_current := None; r_driver_closes := 0 |} in
   fresh_run (RunRows r) /\
   gar_err (query_getall None true (RunRows r)
              {| ga_outcome := None; ga_bad_slice := None; ga_has_slices := true; ga_bad_elem := None;
